@@ -240,7 +240,7 @@ def oracle(c, o):
         r = o[2][0]
         if (r[0] != 0) != any_err:
             return "element-constructor-rules-differ"
-        if r[0] == 0 and r[1] != o[1][-1][2]:
+        if r[0] == 0 and o[1] and r[1] != o[1][-1][2]:
             return "element-constructor-format-differs"
     return None
 
